@@ -46,6 +46,15 @@ def parse_routes():
     return out
 
 
+def _build():
+    """The shared API-node binary; a run against another tree (VERIF_REPO) gets a binary and overlay of its own so that
+    checks running concurrently on the default tree never pick up a foreign build."""
+    if os.path.realpath(vlib.REPO) == '/repo':
+        return apidrive.build()
+    ov = vlib.make_overlay('apinode-c11alt', harness=['main', 'ircserver'])
+    return vlib.build_test('.', os.path.join(vlib.BUILD, 'apinode-c11alt.test'), ov)
+
+
 def prebuild():
     apidrive.build()
 
@@ -99,7 +108,7 @@ def run(tier):
         print('HARNESS-OUT-OF-DATE route table: cannot find the switch of DispatchPrivateWithoutAuth in internal/api/api.go')
         raise SystemExit(3)
     budget = float(os.environ.get('VERIF_BUDGET_S', '75' if tier == 'quick' else '1100'))
-    binary = apidrive.build()
+    binary = _build()
     env = {'VERIF_TIER': tier, 'VERIF_DEADLINE': str(int(t0 + budget)), 'GOMAXPROCS': '2',
            'VERIF_C11_ROUTES': json.dumps(routes)}
     nshards = int(os.environ.get('VERIF_C11_SHARDS', vlib.NCPU))
@@ -163,7 +172,7 @@ def run(tier):
 
 
 def replay(path):
-    b = apidrive.build(); sd = vlib.scratch_dir(); o = os.path.join(sd, 'c11r.json')
+    b = _build(); sd = vlib.scratch_dir(); o = os.path.join(sd, 'c11r.json')
     env = dict(os.environ); env.update({'VERIF_REPLAY': path, 'VERIF_OUT': o, 'TMPDIR': sd, 'VERIF_TIER': 'thorough'})
     p = subprocess.run([b, '-test.run', '^' + TEST + '$', '-test.timeout', '0'], env=env, cwd=sd)
     if not os.path.exists(o):
